@@ -9,7 +9,7 @@
    outcome (return or any exception) and every point at which a user
    callback is made to raise (the state's fail_at is arbitrary). *)
 From Coq Require Import List ZArith Bool Arith.
-From SC Require Import Base.Res Inst.Heap Inst.ClassTable Inst.Model Inst.Framed Inst.FrameProofs.
+From SC Require Import Base.Res Inst.Heap Inst.ClassTable Inst.Model Inst.Framed Inst.FrameProofs Inst.Reach.
 Import ListNotations.
 Open Scope nat_scope.
 
@@ -33,6 +33,23 @@ Theorem C01_deepcopy_writes_no_existing_cell :
 Proof.
   intros ct Hct roots x s.
   exact (framed_run _ _ _ s (step_framed ct Hct (length (heap s)) roots (OpDeepCopy x) eq_refl) (le_n _)).
+Qed.
+
+(* observable form: the object graph hanging off ANY pre-existing object (the
+   receiver, an argument, a peer instance, a class-level default) — its set of
+   reachable objects and the contents of each of them — is the same before and
+   after the call, whether the call returns or raises *)
+Theorem C01_pre_existing_object_graph_unchanged :
+  forall ct, no_dnc_classes ct ->
+  forall roots x hp h s l0,
+    h_inplace h = false -> wf_heap (heap s) -> l0 < length (heap s) ->
+    let s' := snd (step ct roots (OpHelper x hp h) s) in
+    (forall l, reach (heap s) l0 l -> reach (heap s') l0 l /\ nth_error (heap s') l = nth_error (heap s) l) /\
+    (forall l, reach (heap s') l0 l -> reach (heap s) l0 l).
+Proof.
+  intros ct Hct roots x hp h s l0 Hin W Hl. cbv zeta.
+  apply frame_preserves_reachable_graph; auto.
+  apply C01_cow_call_writes_no_existing_cell; auto.
 Qed.
 
 (* the same for every internal entry point reached from a helper: the
@@ -70,5 +87,6 @@ Qed.
 
 Print Assumptions C01_cow_call_writes_no_existing_cell.
 Print Assumptions C01_deepcopy_writes_no_existing_cell.
+Print Assumptions C01_pre_existing_object_graph_unchanged.
 Print Assumptions C01_core_respects_watermark.
 Print Assumptions C01_nonvacuous.
